@@ -61,53 +61,17 @@ func (c *Ctx) ruleNAF(cfg string) {
 	}
 }
 
-// nafWidths collects the constant widths at the call sites of the recoding and
-// emits, per call site, the NAF-WIDTH obligation linking the width to the size
-// of the lookup table the digits index (entries ≥ 2^(w−2): odd digits 1…2^(w−1)−1).
+// nafWidths collects the constant widths at the call sites of the recoding
+// (one NAF-WIDTH obligation per call site: the width is a constant in 2…8).
+// That the digits of each width only index tables with at least 2^(w−2)
+// entries is checked where the digits are used: in the group-expression run of
+// the variable-time drivers (GROUP obligations), which follows the digits
+// through helpers.
 func (c *Ctx) nafWidths(p *load.Program, cfg string, naf *ssa.Function) ([]int, bool) {
 	set := map[int]bool{}
 	all := true
-	// root of an address / value chain: the Alloc or MakeSlice the digits live in
-	var root func(v ssa.Value, depth int) ssa.Value
-	root = func(v ssa.Value, depth int) ssa.Value {
-		if depth > 12 {
-			return v
-		}
-		switch x := v.(type) {
-		case *ssa.IndexAddr:
-			return root(x.X, depth+1)
-		case *ssa.FieldAddr:
-			return root(x.X, depth+1)
-		case *ssa.UnOp:
-			return root(x.X, depth+1)
-		case *ssa.Index:
-			return root(x.X, depth+1)
-		case *ssa.Slice:
-			return root(x.X, depth+1)
-		case *ssa.Convert:
-			return root(x.X, depth+1)
-		case *ssa.ChangeType:
-			return root(x.X, depth+1)
-		}
-		return v
-	}
 	for _, fn := range p.Funcs {
-		if fn.Blocks == nil {
-			continue
-		}
-		type site struct {
-			w    int
-			root ssa.Value
-			pos  string
-		}
-		var sites []site
-		type sel struct {
-			entries int
-			typ     string
-			root    ssa.Value
-			pos     string
-		}
-		var sels []sel
+		n := 0
 		for _, b := range fn.Blocks {
 			for _, ins := range b.Instrs {
 				call, ok := ins.(*ssa.Call)
@@ -115,83 +79,32 @@ func (c *Ctx) nafWidths(p *load.Program, cfg string, naf *ssa.Function) ([]int, 
 					continue
 				}
 				callee, _ := load.StaticCallee(call)
-				if callee == nil {
+				if callee != naf {
 					continue
 				}
-				if callee == naf {
-					args := call.Call.Args
-					k, isConst := args[len(args)-1].(*ssa.Const)
-					o := report.Obligation{Rule: "NAF-WIDTH", Key: fmt.Sprintf("NAF-WIDTH/%s/call#%d", load.ShortName(fn), len(sites)), Config: cfg, Pos: p.Rel(call.Pos())}
-					if !isConst || k.Value == nil || k.Value.Kind() != constant.Int {
-						o.Detail = "the recoding width is not a constant at this call: the digit range, and with it the table index, is not decided"
-						c.Set.Add(o)
-						all = false
-						continue
-					}
-					w64, _ := constant.Int64Val(k.Value)
-					w := int(w64)
-					set[w] = true
-					// where does the result go?
-					var r ssa.Value
-					for _, ref := range *call.Referrers() {
-						if st, ok := ref.(*ssa.Store); ok && st.Val == call {
-							r = root(st.Addr, 0)
-						}
-					}
-					sites = append(sites, site{w: w, root: r, pos: p.Rel(call.Pos())})
-					continue
-				}
-				// selectors of NAF tables: SelectInto(dest, x int8) on a type whose first field is an array of entries
-				if callee.Name() == "SelectInto" && callee.Signature.Recv() != nil && len(call.Call.Args) == 3 {
-					rt := callee.Signature.Recv().Type()
-					if pt, ok := rt.(*types.Pointer); ok {
-						rt = pt.Elem()
-					}
-					named, _ := rt.(*types.Named)
-					st, _ := rt.Underlying().(*types.Struct)
-					if named == nil || st == nil || st.NumFields() != 1 {
-						continue
-					}
-					arr, _ := st.Field(0).Type().Underlying().(*types.Array)
-					if arr == nil {
-						continue
-					}
-					sels = append(sels, sel{entries: int(arr.Len()), typ: named.Obj().Name(), root: root(call.Call.Args[2], 0), pos: p.Rel(call.Pos())})
-				}
-			}
-		}
-		for i, s := range sites {
-			o := report.Obligation{Rule: "NAF-WIDTH", Key: fmt.Sprintf("NAF-WIDTH/%s/call#%d", load.ShortName(fn), i), Config: cfg, Pos: s.pos}
-			if s.w < 2 || s.w > 8 {
-				o.Detail = fmt.Sprintf("width %d is outside 2…8", s.w)
-				c.Set.Add(o)
-				all = false
-				continue
-			}
-			want := 1 << uint(s.w-2)
-			n := 0
-			bad := ""
-			for _, sl := range sels {
-				if s.root == nil || sl.root != s.root {
-					continue
-				}
+				args := call.Call.Args
+				k, isConst := args[len(args)-1].(*ssa.Const)
+				o := report.Obligation{Rule: "NAF-WIDTH", Key: fmt.Sprintf("NAF-WIDTH/%s/call#%d", load.ShortName(fn), n), Config: cfg, Pos: p.Rel(call.Pos())}
 				n++
-				if sl.entries < want {
-					bad = fmt.Sprintf("digits of width %d (odd, up to %d) index %s with %d entries at %s; the table must have at least %d", s.w, (1<<uint(s.w-1))-1, sl.typ, sl.entries, sl.pos, want)
+				if !isConst || k.Value == nil || k.Value.Kind() != constant.Int {
+					o.Detail = "the recoding width is not a constant at this call: the digit range, and with it the table index, is not decided"
+					c.Set.Add(o)
+					all = false
+					continue
 				}
-			}
-			switch {
-			case bad != "":
-				o.Detail = bad
-				all = false
-			case n == 0:
-				o.Detail = "the digits of this recoding are not seen to reach any table selector of the same function (value flow through the local digit array)"
-				all = false
-			default:
+				w64, _ := constant.Int64Val(k.Value)
+				w := int(w64)
+				if w < 2 || w > 8 {
+					o.Detail = fmt.Sprintf("width %d is outside 2…8", w)
+					c.Set.Add(o)
+					all = false
+					continue
+				}
+				set[w] = true
 				o.OK = true
-				o.Detail = fmt.Sprintf("width %d digits (odd, |d| ≤ %d) reach %d selector call(s), each on a table with at least %d = 2^(w−2) entries", s.w, (1<<uint(s.w-1))-1, n, want)
+				o.Detail = fmt.Sprintf("constant width %d: digits are odd with |d| ≤ %d (NAF obligations); every table they index has at least %d entries (checked at each selector call in the GROUP runs)", w, (1<<uint(w-1))-1, 1<<uint(w-2))
+				c.Set.Add(o)
 			}
-			c.Set.Add(o)
 		}
 	}
 	var ws []int
